@@ -373,11 +373,44 @@ Theorem C28_whole_step_start_not_read :
 Proof. exact step_start_not_read. Qed.
 Print Assumptions C28_whole_step_start_not_read.
 
-(* (c) the plan-level theorem (same induction as [m_compose_run] with up to two happenings per durative step) *)
-Definition C28_whole_plan_start_not_read_goal : Prop :=
+(* (c) the plan-level theorem - PROVED for [start_end_fragment] (Proofs/T2SCompile_proofs.v): [t2s_fragment];
+   instantaneous actions unrestricted; every durative action has exactly two effect entries, at StartTiming() then at
+   EndTiming() ([two_entries]), and satisfies [start_not_read_step] (unconditional start effects on fluent symbols that
+   nothing else in the action mentions, unconditional end assignments, plain compiler output).  Each durative step has
+   the two happenings start, end; conditions at the start instant are evaluated before the start effects, those over
+   ]start, end] in the intermediate state. *)
+Theorem C28_whole_plan_start_not_read :
   forall sc smp (TP : tproblem) (P' : problem) (eps : Qc) (s0 : state) (pi : list (N * list value)) (tpl : tplan),
-    smp_ok sc smp -> start_not_read_fragment smp TP = true -> bound_invs (tp_base TP) = [] ->
+    smp_ok sc smp -> start_end_fragment smp TP = true -> bound_invs (tp_base TP) = [] ->
     t2s_problem smp TP = Some P' -> zq 0 < eps ->
     valid_plan sc P' s0 pi = true -> back_plan sc TP P' eps (zq 0) s0 pi = Some tpl ->
     nonempty_along sc TP P' s0 pi -> positive_durations tpl ->
     tt_valid sc TP s0 tpl.
+Proof.
+  intros sc smp TP P' eps s0 pi tpl OK FR BI CP He.
+  exact (plan_start_not_read sc smp OK TP P' eps FR CP He s0 pi tpl BI).
+Qed.
+Print Assumptions C28_whole_plan_start_not_read.
+
+(* --- G: non-vacuity: a(duration 2): at start n += 1 (never read), over [start, end] not g, at end g := true; goal g *)
+Definition exG_d : daction :=
+  {| d_params := []; d_lo := EInt 2; d_hi := EInt 2; d_lopen := false; d_ropen := false;
+     d_conds := [ ({| ti_lo := st0; ti_hi := en0; ti_lopen := false; ti_ropen := false |}, [ENot exg]) ];
+     d_effs := [ (st0, [mkeff 0 [] (EInt 1) KInc false]); (en0, [mkeff 1 [] (EBool true) KAssign true]) ] |}.
+Definition exG_TP : tproblem := {| tp_base := exA_base; tp_dur := [(0%N, exG_d)]; tp_teffs := []; tp_tgoals := [] |}.
+
+Example C28_whole_plan_start_not_read_nonvacuous :
+  start_end_fragment idsmp exG_TP = true /\ end_only_fragment idsmp exG_TP = false /\
+  bound_invs (tp_base exG_TP) = [] /\ t2s_problem idsmp exG_TP = Some (compiled exG_TP) /\
+  valid_plan true (compiled exG_TP) exA_s0 exA_pi = true /\
+  back_plan true exG_TP (compiled exG_TP) eps100 (zq 0) exA_s0 exA_pi = Some (converted exG_TP exA_s0 exA_pi) /\
+  nonempty_along true exG_TP (compiled exG_TP) exA_s0 exA_pi /\ positive_durations (converted exG_TP exA_s0 exA_pi) /\
+  tt_valid_b true exG_TP exA_s0 (converted exG_TP exA_s0 exA_pi) = true.
+Proof.
+  split; [vm_compute; reflexivity|]. split; [vm_compute; reflexivity|]. split; [vm_compute; reflexivity|].
+  split; [vm_compute; reflexivity|]. split; [vm_compute; reflexivity|]. split; [vm_compute; reflexivity|].
+  split; [vm_compute; split; [reflexivity | exact I]|].
+  split; [|vm_compute; reflexivity].
+  intros st dt Hin Hd. vm_compute in Hin. destruct Hin as [<-|[]]. cbn in Hd. inversion Hd. reflexivity.
+Qed.
+Print Assumptions C28_whole_plan_start_not_read_nonvacuous.
